@@ -29,8 +29,8 @@ def run(ctx):
         "deleting the only field of a paragraph is outside the domain",
     ]
     if quick:
-        rc.lts_legs(ctx, [("MC_ReproDoc_F.cfg", (1, 2, 3), 3000, 80, 20, 1),
-                          ("MC_ReproDoc_F2.cfg", (1, 2, 3), 3000, 80, 20, 1)])
+        rc.lts_legs(ctx, [("MC_ReproDoc_F.cfg", (1, 2, 3), 2200, 80, 20, 1),
+                          ("MC_ReproDoc_F2.cfg", (1, 2, 3), 2200, 80, 20, 1)])
         rc.trace_leg(ctx, 300, 20, OPS)
     else:
         rc.lts_legs(ctx, [("MC_ReproDoc_F.cfg", (1, 2, 3), 10 ** 9, 1500, 40, 3),
